@@ -15,10 +15,10 @@ reservation check against a fake admin store and an independent sum:
   a plain reservation) whose four stored records are written in every
   spelling the unit conversion documents (K M G T [P E] as powers of 1024,
   KB MB GB TB as powers of 1000, plain bytes '<n>' / '<n>B', lower and mixed
-  case, padded; cpu '<n>%' / bare '<n>'), at most 2 (thorough: 3) of the four
-  records leaving the base style at a time; create / replacing update, with
-  and without the limited trait, schema-valid request sizes around every
-  boundary.  The oracle reads sizes with its own conversion written from the
+  case, padded; cpu '<n>%' / bare '<n>'), at most 2 of the four records
+  leaving the base style at a time (thorough: also 3, one style per kind);
+  create / replacing update, with and without the limited trait,
+  schema-valid request sizes around every boundary.  The oracle reads sizes with its own conversion written from the
   documented meaning.  Part A also has one partition record and one stored
   reservation written with decimal suffixes.
 
@@ -81,9 +81,13 @@ def _chunks(tier):
     for i in range(len(creates)):
         out.append(('B', tier, i))
     nplan = len(m.spelling_plan(tier))
-    cstep = 80 if tier == 'quick' else 400
+    cstep = 80 if tier == 'quick' else 200
     for lo in range(0, nplan, cstep):
         out.append(('C', tier, lo, min(nplan, lo + cstep)))
+    # the first chunk of every part first: the evidence samples (taken from
+    # the first chunks swept) then show a case of each part
+    firsts = [next(c for c in out if c[0] == kind) for kind in 'ABC']
+    out = firsts + [c for c in out if c not in firsts]
     return out, menu, sets, parts
 
 
@@ -345,7 +349,9 @@ def run(ctx):
                                       for u, _a in m.spelling_plan(tier)}),
             'spelling_configurations': len(m.spelling_plan(tier)),
             'spelling_max_records_off_base_style': (
-                2 if tier == 'quick' else 3),
+                2 if tier == 'quick' else
+                '2 (all styles), 3 (one style per kind: %s)' % ', '.join(
+                    m.style_name(st).strip() for st in m.KIND_STYLES)),
             'spelling_request_traits': m.SPELLED_TRAITS,
         },
     }
